@@ -421,7 +421,7 @@ func c14Method(c *Ctx, ct *Cont, fd *ast.FuncDecl, m *types.Func, fam, name stri
 		}
 		if s.Kind == "store" && result != nil {
 			// the fresh result registers itself by hand: result.ptr = result (what Init does)
-			if sel, ok := s.LHS.(TSel); ok && sel.Field == ct.Ptr && sameTerm(eraseEpochs(sel.X), eraseEpochs(result)) && sameTerm(eraseEpochs(s.RHS), eraseEpochs(result)) {
+			if sel, ok := s.LHS.(TSel); ok && sameField(sel.Field, ct.Ptr) && sameTerm(eraseEpochs(sel.X), eraseEpochs(result)) && sameTerm(eraseEpochs(s.RHS), eraseEpochs(result)) {
 				continue
 			}
 		}
